@@ -181,6 +181,134 @@ def check_emit(ck, tier):
     return acc
 
 
+# ---------------------------------------------------------------------------- Lines.read vs _processFile
+LINE_ATOMS = ["/*", "*/", "**/", "*", "/", "--", "-- c", "#", " ", "  ", "\t", "a", "b;", '"s t"', "'", '" "', "' '", "x*", "--vhdl_comp_off", "-- synthesis translate_off"]
+
+
+def _abstract(args):
+    import absl
+    from vsg import vhdlFile
+    from vsg.vhdlFile import utils as vu
+
+    kind, x = args
+    try:
+        if kind == "file":
+            lines, err = vu.read_vhdlfile(x)
+            o = vhdlFile.vhdlFile(lines)
+        else:
+            lines = x
+            import io, contextlib
+
+            cla = sys.modules["vsg.vhdlFile.vhdlFile"].command_line_args()
+            cla.force_fix = True
+            cla.fix = True
+
+            with contextlib.redirect_stdout(io.StringIO()):
+                o = vhdlFile.vhdlFile(lines, cla)
+        return (x, lines, [(absl.kind_of(t), t.get_value()) for t in o.lAllObjects], o.get_lines())
+    except Exception as e:
+        return (x, None, type(e).__name__, None)
+
+
+SMALL_ATOMS = ["/*", "*/", "*", "/", "--", " ", "a", "x*", "#"]
+
+
+def gen_line_sets(tier):
+    """exhaustive: every line of up to 3 (thorough: 4) atoms, outside and inside a delimited comment; plus random"""
+    r = vlib.rng("c04lines")
+    out = []
+    k = 4 if tier == "thorough" else 3
+    for n in range(0, k + 1):
+        for t in itertools.product(SMALL_ATOMS, repeat=n):
+            l = "".join(t)
+            out.append([l, "a"])
+            out.append(["/* h", l, "a"])
+    n = 6000 if tier == "thorough" else 1500
+    for i in range(n):
+        ls = []
+        for _ in range(r.randint(1, 4)):
+            ls.append("".join(r.choice(LINE_ATOMS) for _ in range(r.randint(0, 5))))
+        out.append(ls)
+    return out
+
+
+def _lines_of(toks):
+    import absl
+
+    cur, out = [], []
+    for t in toks:
+        cur.append(t)
+        if t[0] == absl.KCR:
+            out.append(cur)
+            cur = []
+    if cur:
+        out.append(cur)
+    return out
+
+
+def _merge(line, coarse):
+    import absl
+
+    out = []
+    for k, v in line:
+        if coarse and k not in (absl.KWS, absl.KCR):
+            k = absl.KITEM
+        if k == absl.WILD:
+            k = absl.KITEM
+        if out and k == absl.KITEM and out[-1][0] == absl.KITEM:
+            out[-1] = (k, out[-1][1] + v)
+        else:
+            out.append((k, v))
+    return out
+
+
+def canon_pair(model, real):
+    """the role classifier may split a selected name on '.' or glue an operator symbol string to it: compare with
+    maximal runs of item tokens concatenated (the relation [regroup] of LinesProofs.v). Inside a vhdl_comp_off
+    region pragma.classify turns every non-whitespace token into pragma.ignore: on such lines only whitespace /
+    non-whitespace is compared."""
+    import absl
+
+    ml, rl = _lines_of(model), _lines_of(real)
+    if len(ml) != len(rl):
+        return None, None
+    a, b = [], []
+    for x, y in zip(ml, rl):
+        coarse = any(k == absl.WILD for k, _ in y)
+        a += _merge(x, coarse)
+        b += _merge(y, coarse)
+    return a, b
+
+
+def check_read(ck, tier):
+    import absl
+
+    jobs = [("file", f) for f in corpus.files()] + [("gen", ls) for ls in gen_line_sets(tier)]
+    with Pool(vlib.NCPU) as p:
+        res = p.map(_abstract, jobs, chunksize=16)
+    ok = [(x, lines, toks, emitted) for (x, lines, toks, emitted) in res if lines is not None]
+    model = vlib.run_model("read", [absl.enc_lines(lines) for (_, lines, _, _) in ok])
+    diffs = 0
+    kinds_seen = set()
+    for (x, lines, toks, emitted), m in zip(ok, model):
+        name = os.path.relpath(x, vlib.REPO) if isinstance(x, str) else repr(x)
+        mt, toks = canon_pair(absl.dec_toks(m), toks) if m != "NONE" else (None, toks)
+        lossy = emitted != [""] + lines
+        if lossy and not isinstance(x, str):
+            ck.violation("emit:get_lines!=input:generated", "lines %r are emitted as %r" % (lines, emitted[1:]), {"kind": "input", "oracle": "emit_lines", "lines": lines})
+        same = mt is not None and mt == toks
+        for k, _ in toks:
+            kinds_seen.add(k)
+        if not same:
+            diffs += 1
+            if not lossy:
+                ck.broken_tie("T2:_processFile~Lines.read", "input %s: model %r, implementation %r" % (name, mt and mt[:40], toks[:40]))
+    ck.cov["read"] = {"inputs": len(jobs), "compared": len(ok), "skipped_rejected_or_crashed": len(jobs) - len(ok), "generated_line_sets": len(jobs) - len(corpus.files()), "kinds_seen": sorted(kinds_seen), "model_vs_impl_diffs": diffs}
+    if ok:
+        ck.sample({"read_case": ok[-1][1], "model": model[-1]})
+    return len(ok)
+
+
 # ---------------------------------------------------------------------------- bytes / inode / mtime around CLI runs
 
 
@@ -197,30 +325,45 @@ def check_cli(ck, tier):
     pool = [f for f in corpus.files() if "/styles/" in f or "/rule_doc/" in f or "test_input" in f]
     fs = r.sample(pool, n)
     tmp = tempfile.mkdtemp(prefix="c04_", dir=vlib.BUILD)
-    done = 0
+    done = clean = 0
+    import ruletable
+
+    rt = ruletable.by_id()
     try:
         for i, src in enumerate(fs):
             dst = os.path.join(tmp, "f%d.vhd" % i)
             shutil.copy(src, dst)
             before = snap(dst)
-            rc, out = vlib.sh([vlib.PY, "-m", "vsg", "-f", dst, "-ap"], env=vlib.repo_env(), timeout=300)
+            rc, out = vlib.sh(vlib.vsg_cmd() + ["-f", dst, "-ap"], env=vlib.repo_env(), timeout=300)
             if snap(dst) != before or sorted(os.listdir(tmp)) != sorted(set(os.listdir(tmp))):
                 ck.violation("cli:plain-run-modifies-file", "plain run changed %s (bytes/inode/mtime)" % os.path.relpath(src, vlib.REPO), {"kind": "input", "oracle": "cli_untouched", "file": os.path.relpath(src, vlib.REPO), "fix": False})
             # make it clean, then --fix again must not rewrite
-            rc1, out1 = vlib.sh([vlib.PY, "-m", "vsg", "-f", dst, "--fix"], env=vlib.repo_env(), timeout=600)
-            rc2, out2 = vlib.sh([vlib.PY, "-m", "vsg", "-f", dst, "--fix"], env=vlib.repo_env(), timeout=600)
+            rc1, out1 = vlib.sh(vlib.vsg_cmd() + ["-f", dst, "--fix"], env=vlib.repo_env(), timeout=600)
+            rc2, out2 = vlib.sh(vlib.vsg_cmd() + ["-f", dst, "--fix"], env=vlib.repo_env(), timeout=600)
             mid = snap(dst)
-            rc3, out3 = vlib.sh([vlib.PY, "-m", "vsg", "-f", dst, "--fix"], env=vlib.repo_env(), timeout=600)
+            # premise of the clause: no violation of a fixable rule is left
+            jf = os.path.join(tmp, "r%d.json" % i)
+            vlib.sh(vlib.vsg_cmd() + ["-f", dst, "-ap", "--json", jf], env=vlib.repo_env(), timeout=600)
+            try:
+                left = [v["rule"] for fe in json.load(open(jf))["files"] for v in fe["violations"]]
+            except Exception:
+                left = None
+            if os.path.exists(jf):
+                os.unlink(jf)
+            premise = left is not None and all(not rt.get(x, {"fixable": True})["fixable"] for x in left)
+            rc3, out3 = vlib.sh(vlib.vsg_cmd() + ["-f", dst, "--fix"], env=vlib.repo_env(), timeout=600)
             after = snap(dst)
             done += 1
-            if mid[0] == after[0] and mid != after:
-                ck.violation("cli:fix-rewrites-unchanged-file", "--fix rewrote %s although the content did not change (inode/mtime differ)" % os.path.relpath(src, vlib.REPO), {"kind": "input", "oracle": "cli_untouched", "file": os.path.relpath(src, vlib.REPO), "fix": True})
+            if premise:
+                clean += 1
+                if mid != after:
+                    ck.violation("cli:fix-rewrites-clean-file", "--fix rewrote %s although no fixable violation was left (%s)" % (os.path.relpath(src, vlib.REPO), "content changed" if mid[0] != after[0] else "inode/mtime differ"), {"kind": "input", "oracle": "cli_untouched", "file": os.path.relpath(src, vlib.REPO), "fix": True})
             extra = [x for x in os.listdir(tmp) if not x.endswith(".vhd")]
             if extra:
                 ck.violation("cli:stray-files", "stray files after run: %r" % extra, {"kind": "input", "file": os.path.relpath(src, vlib.REPO)})
     finally:
         shutil.rmtree(tmp, ignore_errors=True)
-    ck.cov["cli"] = {"files": done}
+    ck.cov["cli"] = {"files": done, "fixed_files_without_fixable_violation_left": clean}
     return done
 
 
@@ -237,6 +380,8 @@ def run(tier):
     else:
         ck.broken_tie("build:ocaml", br.ocaml_log[-500:])
     n2 = check_emit(ck, tier)
+    if br.ocaml_ok:
+        n2 += check_read(ck, tier)
     n3 = check_cli(ck, tier)
     ck.cov["evaluations"] = n1 + n2 + n3
     ck.cov["distinct_nontrivial"] = nt + n2
@@ -253,6 +398,10 @@ def replay(rp):
         t = tokens.create(rp["string"])
         print(repr(rp["string"]), "->", t, "lossless" if "".join(t) == rp["string"] else "LOSSY")
         return 0 if "".join(t) == rp["string"] else 1
+    if rp.get("oracle") == "emit_lines":
+        r = _abstract(("gen", rp["lines"]))
+        print(rp["lines"], "->", r[3])
+        return 0 if r[3] == [""] + rp["lines"] else 1
     if rp.get("oracle") in ("emit_parse", "all_classified"):
         print(_parse_emit(os.path.join(vlib.REPO, rp["file"])))
         return 0
